@@ -27,7 +27,7 @@ def main():
     pid, x = sys.argv[1], sys.argv[2]
     suite = "--no-suite" not in sys.argv
     tier = sys.argv[sys.argv.index("--tier") + 1] if "--tier" in sys.argv else "quick"
-    src = ("/tmp/seed6/%s/out" if x >= "G" else "/tmp/seed5/%s/out" if x >= "F" else "/tmp/seed4/%s/out" if x >= "E" else "/tmp/seed3/%s/out" if x >= "D" else "/tmp/seed2/%s/out" if x >= "C" else "/tmp/seed/%s/out") % pid
+    src = ("/tmp/seed7/%s/out" if x >= "H" else "/tmp/seed6/%s/out" if x >= "G" else "/tmp/seed5/%s/out" if x >= "F" else "/tmp/seed4/%s/out" if x >= "E" else "/tmp/seed3/%s/out" if x >= "D" else "/tmp/seed2/%s/out" if x >= "C" else "/tmp/seed/%s/out") % pid
     patch = os.path.join(src, "patch_%s.diff" % x)
     demo = os.path.join(src, "demo_%s.py" % x)
     kept = os.path.join(VERIF, "seeded", "%s-%s" % (pid, x))
